@@ -2179,6 +2179,12 @@ class ResetIndex(Elemwise):
                 # replace the projection of the former index with the actual index
                 subs = Projection(self, name)
                 predicate = parent.predicate.substitute(subs, Index(self.frame))
+                # everything else the predicate reads from the reset frame
+                if self.frame.ndim == 1 and not self.operand("drop"):
+                    # the value column of a reset Series is the Series itself
+                    subs = Projection(self, self.frame._meta.name)
+                    predicate = predicate.substitute(subs, self.frame)
+                predicate = predicate.substitute(self, self.frame)
             elif self.frame.ndim == 1 and not self.operand("drop"):
                 name = self.frame._meta.name
                 # Avoid Projection since we are already a Series
